@@ -9,11 +9,11 @@
 EXTENDS Mutex_MC, Json, IOUtils
 
 Rec == ndJsonDeserialize(IOEnv.TRACE)
-VARIABLES l, nrun, skip, bad
+VARIABLES l, nrun, skip, bad, nbad
 ToSet(q) == {q[i] : i \in 1..Len(q)}
 Pad(p) == [t \in Threads |-> IF t <= Len(p) THEN p[t] ELSE <<>>]
 
-TraceInit == Init /\ l = 1 /\ nrun = 0 /\ skip = FALSE /\ bad = <<>>
+TraceInit == Init /\ l = 1 /\ nrun = 0 /\ skip = FALSE /\ bad = <<>> /\ nbad = 0
 
 ResetTo(e) ==
     /\ futex' = 0 /\ pc' = [t \in Threads |-> "idle"] /\ cur' = [t \in Threads |-> "-"]
@@ -44,21 +44,22 @@ Step ==
     /\ l <= Len(Rec)
     /\ LET e == Rec[l] IN
        IF e.ev = "reset"
-       THEN ResetTo(e) /\ skip' = FALSE /\ nrun' = nrun + 1 /\ UNCHANGED bad
+       THEN ResetTo(e) /\ skip' = FALSE /\ nrun' = nrun + 1 /\ UNCHANGED <<bad, nbad>>
        ELSE IF skip \/ "w" \notin DOMAIN e
-       THEN UNCHANGED <<vars, skip, nrun, bad>>
+       THEN UNCHANGED <<vars, skip, nrun, bad, nbad>>
        ELSE IF ENABLED Follows(e)
-       THEN Follows(e) /\ UNCHANGED <<skip, nrun, bad>>
+       THEN Follows(e) /\ UNCHANGED <<skip, nrun, bad, nbad>>
        ELSE /\ UNCHANGED <<vars, nrun>>
             /\ skip' = TRUE
+            /\ nbad' = nbad + 1
             /\ bad' = IF Len(bad) < 50 THEN Append(bad, [run |-> nrun, line |-> l]) ELSE bad
     /\ l' = l + 1
 
 Final ==
     /\ l = Len(Rec) + 1
-    /\ PrintT(<<"CONF", ToJson([events |-> Len(Rec), runs |-> nrun, bad |-> bad])>>)
+    /\ PrintT(<<"CONF", ToJson([events |-> Len(Rec), runs |-> nrun, nbad |-> nbad, bad |-> bad])>>)
     /\ l' = l + 1
-    /\ UNCHANGED <<vars, nrun, skip, bad>>
+    /\ UNCHANGED <<vars, nrun, skip, bad, nbad>>
 
 TraceNext == Step \/ Final
 =============================================================================
